@@ -13,7 +13,14 @@ def run(ctx):
     rc, out, err, dt = vlib.run([vlib.PY, os.path.join(vlib.VERIF, "tools", "impl_coerce.py")], 600, cwd="/", env=vlib.impl_env())
     if rc != 0:
         raise RuntimeError("impl_coerce.py failed: " + vlib.clean_noise(err)[-1500:])
-    obs = json.loads(out[out.index("["):])
+    data = json.loads(out[out.index("{"):])
+    obs, pobs = data["cells"], data["pcells"]
+    pgroups = collections.OrderedDict()
+    for cls, route, construct, prov, pname, oc in pobs:
+        pgroups.setdefault((cls, route, pname), []).append((construct, prov, oc))
+    pcells = list(pgroups.items())
+    gpcells = glist([f"({gstr(c)}, {r}, {gstr(pn)}, {glist(['true' if o.startswith('raises') else 'false' for _, _, o in v])})"
+                     for (c, r, pn), v in pcells])
     groups = collections.OrderedDict()
     for cls, route, construct, prov, oc in obs:
         if oc.startswith("harness:"):
@@ -24,12 +31,23 @@ def run(ctx):
                     for (c, r), v in cells])
     head = ("From Coq Require Import ZArith List String.\nFrom NadaV.PyMini Require Import PyMini.\n"
             "From NadaV.Model Require Import Rules PyProtocol.\nImport ListNotations.\nOpen Scope string_scope.\n")
-    text = head + f"Definition cells : list cell := {gcells}.\nEval vm_compute in (coerce_violations cells).\n"
+    text = head + (f"Definition cells : list cell := {gcells}.\nDefinition pcells : list pcell := {gpcells}.\n"
+                   "Eval vm_compute in (coerce_violations cells).\nEval vm_compute in (pcoerce_violations pcells).\n")
     rc, o, e, dt = vlib.eval_cases(ctx, "c07_spec", text)
     if rc != 0:
         raise RuntimeError("cases c07_spec failed: " + (o + e)[-1500:])
-    viol = vlib.parse_zlist(vlib.parse_evals(o)[0])
-    ctx.note(f"validate: {len(obs)} real coercion attempts in {len(cells)} (class, route) cells: {len(viol)} cells with a silent answer")
+    ev = vlib.parse_evals(o)
+    viol = vlib.parse_zlist(ev[0])
+    pviol = vlib.parse_zlist(ev[1])
+    ctx.note(f"validate: {len(obs)} real coercion attempts in {len(cells)} (class, route) cells: {len(viol)} cells with a silent answer; "
+             f"{len(pobs)} attempts against plain Python operands in {len(pcells)} cells: {len(pviol)} silent")
+    for i in pviol:
+        (cls, route, pname), v = pcells[i]
+        silent = [x for x in v if not x[2].startswith("raises")]
+        key = f"C07/silent:{'collection' if cls in ('Array', 'Tuple', 'NTuple', 'Object') else cls}-{route}-vs-plain"
+        vlib.report_failure(ctx, key, f"{cls} values compared with the plain value {pname} silently answer on route {route}: {silent[:4]}",
+                            dict(case=dict(kind="coercion-vs-plain", cls=cls, route=route, plain=pname, observations=silent),
+                                 expected="an exception", how_to_replay="PYTHONPATH=<repo> /venv/bin/python /verif/tools/impl_coerce.py"))
     for i in viol:
         (cls, route), v = cells[i]
         silent = [x for x in v if not x[2].startswith("raises")]
@@ -39,18 +57,25 @@ def run(ctx):
                                  expected="an exception", how_to_replay="PYTHONPATH=<repo> /venv/bin/python /verif/tools/impl_coerce.py"))
     if ok_x:
         text = head + "From NadaV.Gen Require Import GenClasses.\n" + \
-            f"Definition cells : list cell := {gcells}.\nEval vm_compute in (coerce_mismatches G cells).\n"
+            (f"Definition cells : list cell := {gcells}.\nDefinition pcells : list pcell := {gpcells}.\n"
+             "Eval vm_compute in (coerce_mismatches G cells).\nEval vm_compute in (pcoerce_mismatches G pcells).\n")
         rc, o, e, dt = vlib.eval_cases(ctx, "c07_model", text)
         if rc != 0:
             ctx.broken.append(dict(kind="correspondence", what="model evaluation failed", detail=(o + e)[-1000:]))
         else:
-            mism = vlib.parse_zlist(vlib.parse_evals(o)[0])
-            ctx.note(f"tie: protocol model over the generated class table vs implementation: {len(mism)} of {len(cells)} cells disagree")
-            ctx.cov["model_impl_disagreements"] = len(mism)
+            ev = vlib.parse_evals(o)
+            mism = vlib.parse_zlist(ev[0])
+            pmism = vlib.parse_zlist(ev[1])
+            ctx.note(f"tie: protocol model over the generated class table vs implementation: {len(mism)} of {len(cells)} cells and "
+                     f"{len(pmism)} of {len(pcells)} plain-operand cells disagree")
+            ctx.cov["model_impl_disagreements"] = len(mism) + len(pmism)
+            if pmism:
+                ctx.broken.append(dict(kind="correspondence", what="protocol model and implementation disagree on plain-operand cells",
+                                       detail=json.dumps([[pcells[i][0], pcells[i][1][:3]] for i in pmism[:5]])))
             if mism:
                 ctx.broken.append(dict(kind="correspondence", what="protocol model and implementation disagree",
                                        detail=json.dumps([[cells[i][0], cells[i][1][:3]] for i in mism[:5]])))
-    ctx.cov.update(evaluations=len(obs), distinct_nontrivial=len(cells), exhaustive=True,
+    ctx.cov.update(evaluations=len(obs) + len(pobs), distinct_nontrivial=len(cells) + len(pcells), exhaustive=True,
                    rule="every (non-literal scalar class | collection class) x 29 Python constructs over 5 routes (truth, chained "
                         "comparison, min/max/sorted, membership/equality, iteration) x provenances (input, operation result, "
                         "function parameter, n-tuple element, object field) on real objects; distinct = (class, route) cells",
